@@ -133,6 +133,13 @@ def progress_or_raise(ctx, rep, rule):
     mark = r.mark_attr
     f, (an, ip, out) = topo(ctx)
     fn = f.qualname
+    for n in walk_local(f.node):
+        if isinstance(n, (ast.Assign, ast.AugAssign, ast.AnnAssign)) and isinstance(n.value, ast.YieldFrom):
+            # `n = yield from self._one_pass()`: whether a pass made progress is told by the value a sub-generator
+            # returns; the link between that number and the marks it stored is beyond this rule
+            rep.error(rule, "%s:%d the progress of a pass is the value returned by a sub-generator (`%s`): this rule "
+                      "cannot decide this form" % (f.module.relpath, n.lineno, src(n)[:70]))
+            return
     for e in an.events('SPIN'):
         rep.fail(rule, "%s pass without progress loops again" % e.where, fn,
                  "the outer loop can start a new pass although the previous one marked nothing",
@@ -197,8 +204,11 @@ def progress_or_raise(ctx, rep, rule):
     raises = an.events('RAISE')
     rep.check(bool(raises), rule, "%s raises when it cannot go on" % fn, fn, "no raise statement is reachable",
               "a cyclic graph is never reported")
+    # the counter of the scan is the one a test reads (a count of rounds kept for a message is no concern)
+    tested = {m.id for n in walk_local(f.node) if isinstance(n, (ast.If, ast.While, ast.IfExp, ast.Compare, ast.Assert))
+              for m in ast.walk(n.test if hasattr(n, 'test') else n) if isinstance(m, ast.Name)}
     for e in an.events('AUG'):
-        if e.data['val'][0] in ('pos', 'acc', 'rem') and not e.data.get('depth'):
+        if e.data['val'][0] in ('pos', 'acc', 'rem') and not e.data.get('depth') and e.data.get('name') in tested:
             # (the counter of the scan itself: a helper that counts something else is not concerned)
             rep.check(e.data['marked'] is not None, rule, "%s counter goes with marking" % e.where, fn,
                       "`%s` on a path where no job was marked in this step" % src(stmt_of(e.node)),
@@ -244,10 +254,37 @@ def _all_nested_ok(ctx, v):
     return cls is not None and r.sched in cls.mro
 
 
+def _verdict_hooks(ctx):
+    """names of per-job hooks that stand for `the verdict of this member's own check_cycles()`: the job base class
+    answers True (an atomic job has no cycle), every nestable class answers `self.check_cycles()`"""
+    r, p = ctx.roles, ctx.prog
+    out = set()
+    for name, f in r.jobbase.methods.items():
+        rets = [n for n in walk_local(f.node) if isinstance(n, ast.Return)]
+        if len(rets) != 1 or not (isinstance(rets[0].value, ast.Constant) and rets[0].value.value is True):
+            continue
+        if len([n for n in f.node.body if not (isinstance(n, ast.Expr) and isinstance(n.value, ast.Constant))]) != 1:
+            continue
+        ok = bool(r.nestable)
+        for n_ in r.nestable:
+            g = p.supplier(n_, name)
+            if g is None or g is f:
+                ok = False
+                break
+            gr = [n for n in walk_local(g.node) if isinstance(n, ast.Return)]
+            if not (len(gr) == 1 and isinstance(gr[0].value, ast.Call) and dotted(gr[0].value.func) == 'self.check_cycles'
+                    and not gr[0].value.args and not gr[0].value.keywords):
+                ok = False
+        if ok:
+            out.add(name)
+    return out
+
+
 def check_cycles_rules(ctx, rep, rule):
     """R15.5 both forms of check_cycles; consumers iterate in the generator's order"""
     r = ctx.roles
     p = ctx.prog
+    VERDICTS = {'check_cycles'} | _verdict_hooks(ctx)
     class CyclesModel(GraphModel):
         # `return all(c(x) for x in S)` is read as the search loop it is
         desugar_all_any = True
@@ -344,7 +381,7 @@ def check_cycles_rules(ctx, rep, rule):
                 if e.data['val'] != T.FALSE:
                     continue
                 for d in flat(e.st):
-                    if any(k[0] == 'mcall' and k[2] == 'check_cycles' and v is False for k, v in d.items()):
+                    if any(k[0] == 'mcall' and k[2] in VERDICTS and v is False for k, v in d.items()):
                         rec.append((e, d))
             allform = [e for e in rets if e.data.get('all_form')]
             rep.check(bool(rec) or bool(allform), rule, "%s recursion into nested schedulers" % fn, fn,
@@ -361,7 +398,7 @@ def check_cycles_rules(ctx, rep, rule):
                 for k in fa:
                     good = bool(k[3]) and all(
                         any((a[0] == 'call' and a[1] == 'isinstance' and b is False) or
-                            (a[0] == 'mcall' and a[2] == 'check_cycles' and b is True) for a, b in alt)
+                            (a[0] == 'mcall' and a[2] in VERDICTS and b is True) for a, b in alt)
                         for alt in k[3])
                     rep.check(good, rule, "%s True only if every nested member passed" % e.where, fn,
                               "the scan goes on when: %s" % [[(T.show(a, 3), b) for a, b in alt] for alt in k[3]],
@@ -385,7 +422,15 @@ def check_cycles_rules(ctx, rep, rule):
         from .common import topo_loops
         # (the numbering helper that list() calls first has its own loop: it is a consumer of its own)
         uses = topo_loops(ctx, f, exclude={x for x in ('list', '_set_sched_ids', '_dot_body') if x != name})
-        from .common import topo_consumed_opaquely
+        from .common import topo_consumed_opaquely, topo_reordered
+        reo = topo_reordered(ctx, f)
+        for c in reo:
+            rep.fail(rule, "%s:%d the order of the generator is used as it is" % (f.module.relpath, c.lineno), f.qualname,
+                     "`%s` re-orders what topological_order() yields" % src(c)[:90],
+                     "jobs are numbered / listed / drawn in an order that is not a linear extension: a job can come "
+                     "before one of its requirements")
+        if reo:
+            continue
         if not uses and topo_consumed_opaquely(ctx, f):
             rep.error(rule, "%s hands self.topological_order() to a fold (reduce / map ...): the order is used, "
                             "in a form this rule cannot read" % f.qualname)
@@ -595,6 +640,78 @@ def _count_truth(t, st, okv):
     return v
 
 
+def _measure_result(ctx, rep, r4, f):
+    """sanitize() that answers by comparing one measure of the tree taken before and after the pruning
+    (`total = sum(len(j.required) for j in W)` ... `return total == sum(len(j.required) for j in W)`): the answer is
+    right iff the walk W reaches every object whose requirements sanitize() may prune - members at every depth,
+    nested scheduler nodes included.  -> True when the shape was recognised (and judged)"""
+    r = ctx.roles
+    fn = f.qualname
+    rets = [n for n in walk_local(f.node) if isinstance(n, ast.Return) and n.value is not None]
+    if len(rets) != 1 or not isinstance(rets[0].value, ast.Compare) or len(rets[0].value.ops) != 1 \
+            or not isinstance(rets[0].value.ops[0], ast.Eq):
+        return False
+    cmpn = rets[0].value
+    sides = [cmpn.left, cmpn.comparators[0]]
+    names = [x for x in sides if isinstance(x, ast.Name)]
+    exprs = [x for x in sides if not isinstance(x, ast.Name)]
+    if len(names) != 1 or len(exprs) != 1:
+        return False
+    binds = [n for n in f.node.body if isinstance(n, ast.Assign) and len(n.targets) == 1
+             and isinstance(n.targets[0], ast.Name) and n.targets[0].id == names[0].id]
+    stores = [n for n in walk_local(f.node) if isinstance(n, ast.Name) and n.id == names[0].id
+              and isinstance(n.ctx, ast.Store)]
+    if len(binds) != 1 or len(stores) != 1 or ast.dump(binds[0].value) != ast.dump(exprs[0]):
+        return False
+    e = exprs[0]
+    if not (isinstance(e, ast.Call) and isinstance(e.func, ast.Name) and e.func.id == 'sum' and len(e.args) == 1
+            and isinstance(e.args[0], (ast.GeneratorExp, ast.ListComp)) and len(e.args[0].generators) == 1
+            and not e.args[0].generators[0].ifs):
+        return False
+    g = e.args[0].generators[0]
+    elt = e.args[0].elt
+    if not (isinstance(g.target, ast.Name) and isinstance(elt, ast.Call) and isinstance(elt.func, ast.Name)
+            and elt.func.id == 'len' and len(elt.args) == 1 and isinstance(elt.args[0], ast.Attribute)
+            and elt.args[0].attr == 'required' and isinstance(elt.args[0].value, ast.Name)
+            and elt.args[0].value.id == g.target.id):
+        return False
+    w = g.iter
+    site = "%s result = the number of requirements is unchanged" % fn
+    if isinstance(w, ast.Attribute) and isinstance(w.value, ast.Name) and w.value.id == 'self' \
+            and w.attr == MEMBERS[2]:
+        rep.fail(r4, site, fn, "`%s` counts the requirements of the direct members only" % src(rets[0]),
+                 "requirements removed inside a nested scheduler go unseen: sanitize() returns True although it "
+                 "changed something")
+        return True
+    if isinstance(w, ast.Call) and isinstance(w.func, ast.Attribute) and isinstance(w.func.value, ast.Name) \
+            and w.func.value.id == 'self' and not w.args:
+        g2 = ctx.prog.supplier(r.sched, w.func.attr)
+        if g2 is None or not g2.is_generator or 'scan_schedulers' not in g2.params:
+            return False
+        val = None
+        for k in w.keywords:
+            if k.arg == 'scan_schedulers' and isinstance(k.value, ast.Constant):
+                val = bool(k.value.value)
+            elif k.arg == 'scan_schedulers' or k.arg is None:
+                return False
+        if val is None:
+            a = g2.node.args
+            pos = a.posonlyargs + a.args
+            for prm, d in list(zip(pos[len(pos) - len(a.defaults):], a.defaults)) + \
+                    [(x, y) for x, y in zip(a.kwonlyargs, a.kw_defaults) if y is not None]:
+                if prm.arg == 'scan_schedulers' and isinstance(d, ast.Constant):
+                    val = bool(d.value)
+        if val is None:
+            return False
+        rep.check(val, r4, site, fn,
+                  "`%s` walks the tree with scan_schedulers=%s: nested scheduler objects are skipped" % (
+                      src(rets[0])[:120], val),
+                  "a requirement removed from a nested scheduler object itself goes unseen: sanitize() returns True "
+                  "although it changed something")
+        return True
+    return False
+
+
 def sanitize_rules(ctx, rep, r1, r2, r3, r4):
     r = ctx.roles
     f = ctx.prog.supplier(r.sched, 'sanitize')
@@ -672,6 +789,8 @@ def sanitize_rules(ctx, rep, r1, r2, r3, r4):
                  "a nested scheduler is left unsanitized once a change was seen earlier in the loop",
                  trace(e.st))
     # R16.4 truth table of the returned value
+    if not an.tables and _measure_result(ctx, rep, r4, f):
+        return
     if not an.tables:
         rep.error(r4, "cannot find the boolean accumulator of the member loop of sanitize")
         return
@@ -995,8 +1114,18 @@ def _step_shape(ctx, rep, rule, stepf, attparam):
         rep.check(not _may_stop_early(o), rule, "%s union over all the starts" % fn, fn,
                   "the loop over the start jobs can stop early (`break`/`return` inside)",
                   "with several start jobs only the neighbours of the first are returned")
+        def _unsnap(e):
+            while isinstance(e, ast.Call) and isinstance(e.func, ast.Name) and e.func.id in ('list', 'tuple') \
+                    and len(e.args) == 1 and not e.keywords:
+                e = e.args[0]
+            return e
         inner = [l for l in ast.walk(o) if isinstance(l, ast.For) and l is not o
-                 and isinstance(l.iter, ast.Call) and dotted(l.iter.func) == 'getattr']
+                 and isinstance(_unsnap(l.iter), ast.Call) and dotted(_unsnap(l.iter).func) == 'getattr']
+        member_names = {'self.jobs'} | {n.targets[0].id for n in walk_local(stepf.node)
+                                        if isinstance(n, ast.Assign) and len(n.targets) == 1
+                                        and isinstance(n.targets[0], ast.Name) and dotted(n.value) == 'self.jobs'
+                                        and sum(1 for m in walk_local(stepf.node) if isinstance(m, ast.Name)
+                                                and m.id == n.targets[0].id and isinstance(m.ctx, ast.Store)) == 1}
         if not inner:
             bulk = [c for c in ast.walk(o) if isinstance(c, ast.Call) and isinstance(c.func, ast.Attribute)
                     and c.func.attr in ('update', 'extend') and c.args and isinstance(c.args[0], ast.Call)
@@ -1015,9 +1144,10 @@ def _step_shape(ctx, rep, rule, stepf, attparam):
             pass
         else:
           if True:
-            ok = isinstance(i.iter.args[0], ast.Name) and isinstance(o.target, ast.Name) \
-                and i.iter.args[0].id == o.target.id and isinstance(i.iter.args[1], ast.Name) \
-                and i.iter.args[1].id == attparam
+            ga = _unsnap(i.iter)
+            ok = isinstance(ga.args[0], ast.Name) and isinstance(o.target, ast.Name) \
+                and ga.args[0].id == o.target.id and isinstance(ga.args[1], ast.Name) \
+                and ga.args[1].id == attparam
             rep.check(ok, rule, "%s neighbours read from the start job along the requested relation" % fn, fn,
                       "`%s`" % src(i.iter), "the step follows another relation than the one requested")
             rep.check(not _may_stop_early(i), rule, "%s every neighbour considered" % fn, fn,
@@ -1036,7 +1166,7 @@ def _step_shape(ctx, rep, rule, stepf, attparam):
                             and test.left.id == tgt:
                         right = ast.unparse(test.comparators[0])
                         isin = isinstance(test.ops[0], ast.In) == pol if isinstance(test.ops[0], (ast.In, ast.NotIn)) else None
-                        if right == 'self.jobs' and isin is True:
+                        if right in member_names and isin is True:
                             member_filter = True
                             continue
                         if right == res and isin is False:
@@ -1145,7 +1275,12 @@ class ClosureModel(GraphModel):
         if term[0] == 'cmp' and term[1] in ('==', '!=', '>', '<', '>=', '<='):
             a, b = term[2], term[3]
             for x, y, flip in ((a, b, False), (b, a, True)):
-                if x[0] == 'oldlen' and y == T.mk(('call', 'len', (('coll', x[1]),), ())):
+                ylen = y[2][0] if y[0] == 'call' and y[1] == 'len' and len(y[2]) == 1 else None
+                named = T.mk(('coll', x[1])) if x[0] == 'oldlen' else None
+                # (the current size of the named set - the set itself, or the set with what this pass added to it)
+                wide = T.mk(('unk', x[1])) if x[0] == 'oldlen' else None       # (the same set, widened round the loop)
+                if x[0] == 'oldlen' and ylen is not None and (ylen in (named, wide) or (
+                        ylen[0] == 'union' and (named in ylen[1] or wide in ylen[1]))):
                     # old size < current size
                     op = term[1]
                     if flip:
@@ -1263,7 +1398,15 @@ def _closure_shape(ctx, rep, rule, clos, stepf):
                       "`%s` is %s" % (T.show(k, 3), v), "some reachable jobs are left out of the closure", trace(e.st))
     wex = an.events('WEXIT')
     rep.need(rule + ":exit", len(wex), 1, "exits of the closure loop")
+    # the fixed point may be detected by comparing the size of the result with a snapshot taken before the pass
+    snap = any(isinstance(n, ast.Compare) and len(n.ops) == 1 and any(
+        isinstance(x, ast.Call) and isinstance(x.func, ast.Name) and x.func.id == 'len' for x in [n.left] + n.comparators)
+        and any(isinstance(x, ast.Name) for x in [n.left] + n.comparators) for n in walk_local(clos.node))
     for e in wex:
+        if e.data['added'] and snap:
+            rep.error(rule, "%s: the loop is left on a comparison of sizes (`len(<result>)` against a snapshot) that this "
+                      "rule could not follow on every path" % e.where)
+            continue
         rep.check(not e.data['added'], rule, "%s loop left only after a pass that added nothing" % e.where, fn,
                   "the loop can be left right after a pass that added new jobs",
                   "jobs further than a fixed number of links away are missed: the closure is incomplete", trace(e.st))
@@ -1284,7 +1427,7 @@ def _traversal(ctx, rep, rule):
     # the per-job hook: the method of the job base class that the public entry delegates to
     def hooks_of(g):
         return {n.func.attr for n in walk_local(g.node) if isinstance(n, ast.Call)
-                and isinstance(n.func, ast.Attribute) and n.func.attr in r.jobbase.methods
+                and isinstance(n.func, ast.Attribute) and p.supplier(r.jobbase, n.func.attr) is not None
                 and isinstance(getattr(n, '_parent', None), ast.YieldFrom)}
     hooks = hooks_of(pub)
     if not hooks:
@@ -1326,8 +1469,15 @@ def _traversal(ctx, rep, rule):
     impls = [(cls, returned_generator(f) or f) for cls, f in impls]
     seen_f = []
     impls = [(c_, f_) for c_, f_ in impls if not (f_ in seen_f or seen_f.append(f_))]
-    for cls, f in impls:
-        an, ip, out = ctx.explore(f, model=GraphModel)
+    # one implementation in an ancestor the job side and the scheduler side share (a mixin, driven by what each side
+    # says about itself): it is read once as the hook of a job, once as the hook of a scheduler
+    shared = [(c_, f_) for c_, f_ in impls if r.sched not in c_.mro and r.jobbase not in c_.mro
+              and c_ in r.sched.mro and c_ in r.jobbase.mro]
+    impls = [(c_, f_, None) for c_, f_ in impls if (c_, f_) not in shared]
+    for c_, f_ in shared:
+        impls += [(r.jobbase, f_, r.jobbase), (r.sched, f_, r.sched)] + [(n_, f_, n_) for n_ in r.nestable]
+    for cls, f, as_cls in impls:
+        an, ip, out = ctx.explore(f, model=GraphModel, self_cls=as_cls)
         ys = an.events('YIELD')
         container = r.sched in cls.mro
         site = "%s.%s" % (cls.name, hook)
@@ -1364,7 +1514,7 @@ def _traversal(ctx, rep, rule):
             rep.check(okd, rule, "%s delegates to every member's hook, forwarding the flag" % site, f.qualname,
                       "delegations: %s" % [T.show(y.data['val'], 4) for y in dele],
                       "jobs inside a nested scheduler are not all visited")
-    nest_impl = [c for c, f in impls if c in r.nestable or any(c in n.mro for n in r.nestable)]
+    nest_impl = [c for c, f, _a in impls if c in r.nestable or any(c in n.mro for n in r.nestable)]
     rep.check(bool(nest_impl), rule, "the nestable class overrides the traversal hook", "class " +
               ", ".join(c.name for c in r.nestable), "no override of %s in a nestable class" % hook,
               "a nested scheduler is visited as if it were an atomic job: its jobs are never reached")
@@ -1423,7 +1573,24 @@ def surgery(ctx, rep, r1, r2, r3):
                     and len(e.data['args']) == 1:
                 e.data['val'] = T.mk(('binop', 'BitAnd', MEMBERS, _setalg(e.data['args'][0])))
                 stores.append(e)
+        if name == 'keep_only_between':
+            # delegation: `self.keep_only(X)` narrows the member set to X - and sanitizes on the spot
+            for e in an.events('CALL'):
+                if e.data['meth'] == 'keep_only' and e.data['recv'] == T.SELF and len(e.data['args']) == 1:
+                    e.data['val'] = _setalg(e.data['args'][0])
+                    stores.append(e)
+                    later = [m for m in an.events('MUT') if m.data['attr'] == 'jobs' and m.data['obj'] == T.SELF
+                             and m.node.lineno > e.node.lineno] + \
+                            [c for c in an.events('CALL') if c.data['recv'] == T.SELF and c.data['meth'] in ('update', 'add')
+                             and c.node.lineno > e.node.lineno]
+                    rep.check(not later, r1, "%s sanitizes only once the member set is final" % fn, fn,
+                              "`%s` sanitizes the scheduler, and members are added back afterwards (%s)"
+                              % (src(e.node)[:80], ", ".join(sorted({"`%s`" % src(x.node)[:50] for x in later}))),
+                              "while the milestones are out, sanitize() strips the kept jobs of their requirements on "
+                              "them: orderings between kept jobs are lost")
         rep.need(r3 + ":" + name, len(stores), 1, "stores to the member set")
+        if not stores:
+            continue
         sani = [e for e in an.events('CALL') if e.data['meth'] == 'sanitize' and e.data['recv'] == T.SELF]
         # sanitize post-dominates the narrowing: every normal end was preceded by it
         narrowed_lines = {e.node.lineno for e in stores}
@@ -1448,6 +1615,11 @@ def surgery(ctx, rep, r1, r2, r3):
             # S is what gets added back under keep_starts, E under keep_ends
             ups0 = [e for e in an.events('CALL') if e.data['meth'] == 'update' and e.data['recv'] != T.SELF
                     and e.data['args']]
+            # (milestones may also be added back to the member set itself, once it has been narrowed)
+            ups0 += [e for e in an.events('MUT') if e.data['attr'] == 'jobs' and e.data['obj'] == T.SELF
+                     and e.data['how'] == 'update' and e.data['args']]
+            ups0 += [e for e in an.events('CALL') if e.data['meth'] == 'update' and e.data['recv'] == T.SELF
+                     and e.data['args']]
             S_all = {e.data['args'][0] for e in ups0 if e.st.facts.get(T.mk(('var', 'keep_starts'))) is True}
             E_all = {e.data['args'][0] for e in ups0 if e.st.facts.get(T.mk(('var', 'keep_ends'))) is True}
 
@@ -1457,8 +1629,14 @@ def surgery(ctx, rep, r1, r2, r3):
                 if term[0] == 'mcall' and term[1] == T.SELF and term[2] == meth and len(term[3]) == 1 \
                         and term[3][0][0] == 'star' and (term[3][0][1] == arg or term[3][0][1] in
                                                          (S_all if meth == 'successors_downstream' else E_all)):
+                    ms = term[3][0][1]
+                    # the milestones are the caller's: a set filled in from the graph itself when the caller gave none
+                    # (`starts or set(self.entry_jobs())`) is another constraint than "no constraint"
+                    if T.mentions(ms, lambda x: x[0] == 'gen' or (x[0] == 'mcall' and x[1] == T.SELF)):
+                        foreign.append(ms)
                     return 'closure'
                 return None
+            foreign = []
             dn = {x[3][0][1] for ev_ in an.log for val_ in ev_.data.values() if isinstance(val_, tuple)
                   for x in T.subterms(val_)
                   if len(x) == 5 and x[0] == 'mcall' and x[2] == 'successors_downstream' and x[3] and x[3][0][0] == 'star'}
@@ -1507,6 +1685,14 @@ def surgery(ctx, rep, r1, r2, r3):
                     ok = ok and rest <= (S_all | E_all)
                 rep.check(ok, r3, "%s member set = downstream(starts) & upstream(ends) (+starts, +ends)" % e.where, fn, why,
                           "keep_only_between keeps another subset than the documented one", trace(e.st))
+            foreign += [ms for ms in sorted(dn | un, key=repr)
+                        if any(x[0] == 'gen' or (x[0] == 'mcall' and x[1] == T.SELF) for x in T.subterms(ms))]
+            for ms in foreign[:1]:
+                rep.fail(r3, "%s milestones are what the caller gave" % fn, fn,
+                         "the closure is taken from %s" % T.show(ms, 4)[:140],
+                         "an omitted (or empty) `starts` / `ends` means no constraint on that side: replacing it by "
+                         "the entry / exit jobs keeps another subset (an unrelated entry job kept, forever jobs "
+                         "dropped, the keep flags applied to jobs the caller never named)")
             seen = set()
             for e in ups0:
                 a = e.data['args'][0]
@@ -1599,6 +1785,14 @@ def surgery(ctx, rep, r1, r2, r3):
               "remaining jobs still require the removed job: the scheduler is no longer closed")
     rem_job = [e for e in an.events('MUT') if e.data['attr'] == 'jobs' and e.data['obj'] == T.SELF]
     okj = any(e.data['how'] in ('remove', 'discard') and e.data['args'] == (J,) for e in rem_job)
+    if not okj:
+        # ... or through the public `remove()` of the class, when that is what it does
+        rm = p.supplier(r.sched, 'remove')
+        does = rm is not None and len(rm.params) > 1 and any(
+            isinstance(n, ast.Call) and dotted(n.func) in ('self.jobs.remove', 'self.jobs.discard') and len(n.args) == 1
+            and isinstance(n.args[0], ast.Name) and n.args[0].id == rm.params[1] for n in walk_local(rm.node))
+        okj = does and any(e.data['meth'] == 'remove' and e.data['recv'] == T.SELF and e.data['args'] == (J,)
+                           for e in an.events('CALL'))
     rep.check(okj, r2, "%s the job leaves the member set" % fn, fn,
               "mutations of self.jobs: %s" % [(e.data['how'], [T.show(a, 2) for a in e.data['args']]) for e in rem_job],
               "the bypassed job is still a member")
